@@ -1,5 +1,39 @@
-import Rivaas.Proto
-/- Driver for C01 (stub: not built yet) -/
-def main : IO UInt32 := do
-  IO.eprintln "driver for C01 is not built yet"
-  return 2
+import Rivaas.Driver.RouteCase
+/-
+Driver for C01. Case line: `<id> <input> => <obs> <routeExists 0|1>` (see Driver/RouteCase.lean).
+MI  : the tree model (Model/Radix `serve`, `routeExists`) reproduces the observation exactly.
+S   : the reference matcher's oracle (Spec/Match `specOK`, or `soundOK` outside the canonical domain)
+      holds on what the implementation did.
+D   : class of the recorded finding the request falls into (Spec/MatchClass `classify`).
+-/
+namespace Rivaas.DriverC01
+open Rivaas.Proto Rivaas.Route Rivaas.Radix Rivaas.Match Rivaas.RouteCase
+
+def pObsX : P (Option (Obs × Bool)) := do
+  let o ← pObs
+  match o with
+  | none => pure none
+  | some o => do
+    let e ← bool
+    pure (some (o, e))
+
+def step (line : String) : String :=
+  match splitCase line with
+  | none => "? bad-line"
+  | some (id, inp, obs) =>
+    match runP pCase inp, runP pObsX obs with
+    | some c, some o =>
+      let sat := satOf c.satTab
+      let r := build c.noRoute c.script
+      let m := serve sat r c.req
+      let me := routeExists sat r c.req.method c.req.path
+      match o with
+      | some (oi, ei) =>
+        let (s, d) := judge c oi
+        verdict id (m == oi && me == ei) s d (encObs m ++ (if me then " 1" else " 0"))
+      | none => verdict id false false "-" (encObs m ++ (if me then " 1" else " 0"))
+    | _, _ => s!"{id} bad-case"
+
+end Rivaas.DriverC01
+
+def main : IO UInt32 := Rivaas.Proto.driverMain Rivaas.DriverC01.step
